@@ -462,3 +462,21 @@ def run_case(case):
     size = sum(len(s) for s in case["sides"])
     nontrivial = any(o[0] == "ok" for o in outcomes) and (size >= 3 or any_abs or any(it["k"] != "var" for s in case["sides"] for it in s))
     return {"viol": viol, "nontrivial": nontrivial, "labels": labels, "outcome": "+".join(kinds), "note": strings[0]}
+
+
+def extra_campaign(tier, seed):
+    """thorough tier: coverage-guided byte-level fuzzing of the parser (atheris/libFuzzer), once from the corpus of strings taken
+    from the repository's tests and once from an empty corpus; the oracle inside the target is judge_string()."""
+    if tier != "thorough":
+        return None
+    try:
+        import sys
+        sys.path.insert(0, env.VERIF + "/.deps")
+        import atheris  # noqa: F401
+    except Exception:  # noqa: B902
+        return {"coverage": {"fuzz": "atheris not importable: campaign skipped"}}
+    from pv import fuzzrun
+    runs = [fuzzrun.campaign(seed, 6000, 420, True), fuzzrun.campaign(seed, 3000, 240, False)]
+    fails = [f for r in runs for f in r["failures"]]
+    n = sum(r["stats"].get("executions", 0) for r in runs)
+    return {"coverage": {"fuzz_campaigns": [{k: v for k, v in r.items() if k != "failures"} for r in runs]}, "failures": fails, "evaluations": n}
